@@ -120,10 +120,20 @@ def _inline_return_temps(tree: ast.AST) -> None:
                         continue
                     # `t = E; obj.attr = t` is read as `obj.attr = E`
                     if isinstance(b, ast.Assign) and isinstance(b.value, ast.Name) and b.value.id == t and len(b.targets) == 1 \
-                            and isinstance(b.targets[0], ast.Attribute):
+                            and (isinstance(b.targets[0], ast.Attribute) or t.startswith("_ret__h")):
                         b.value = a.value
                         del stmts[i]
                         continue
+                    # `t = E; return t.m(...)` / `t = E; x = f(t)`: the single use in the next simple statement reads E itself
+                    if isinstance(b, (ast.Return, ast.Assign, ast.Expr)) and not isinstance(a.value, (ast.Lambda,)):
+                        loads = [x for x in ast.walk(b) if isinstance(x, ast.Name) and x.id == t and isinstance(x.ctx, ast.Load)]
+                        in_scope = not any(isinstance(x, (ast.Lambda, ast.ListComp, ast.SetComp, ast.DictComp, ast.GeneratorExp)) for x in ast.walk(b))
+                        if len(loads) == 1 and in_scope and isinstance(a.value, ast.Call) and t.startswith(("_ret__h",)) or (
+                                len(loads) == 1 and in_scope and isinstance(b, ast.Return) and isinstance(b.value, ast.Call)
+                                and isinstance(b.value.func, ast.Attribute) and b.value.func.value is loads[0]):
+                            _SubstNames({t: a.value}).visit(b)
+                            del stmts[i]
+                            continue
                 i += 1
         for n in ast.walk(fn):
             for fld in ("body", "orelse", "finalbody"):
@@ -132,9 +142,214 @@ def _inline_return_temps(tree: ast.AST) -> None:
                     block(v)
 
 
-def canon_compare(tree: ast.AST) -> ast.AST:
+class _SubstNames(ast.NodeTransformer):
+    def __init__(self, mapping):
+        self.mapping = mapping
+
+    def visit_Name(self, node):
+        if isinstance(node.ctx, ast.Load) and node.id in self.mapping:
+            import copy
+            return copy.deepcopy(self.mapping[node.id])
+        return node
+
+
+class _FoldAttrCalls(ast.NodeTransformer):
+    """getattr(x, "a") -> x.a ; setattr(x, "a", v) -> x.a = v (statement level) for constant attribute names."""
+
+    def visit_Call(self, node):
+        self.generic_visit(node)
+        if isinstance(node.func, ast.Name) and node.func.id == "getattr" and len(node.args) == 2 and not node.keywords \
+                and isinstance(node.args[1], ast.Constant) and isinstance(node.args[1].value, str) and node.args[1].value.isidentifier():
+            return ast.copy_location(ast.Attribute(value=node.args[0], attr=node.args[1].value, ctx=ast.Load()), node)
+        return node
+
+    def visit_Expr(self, node):
+        self.generic_visit(node)
+        c = node.value
+        if isinstance(c, ast.Call) and isinstance(c.func, ast.Name) and c.func.id == "setattr" and len(c.args) == 3 and not c.keywords \
+                and isinstance(c.args[1], ast.Constant) and isinstance(c.args[1].value, str) and c.args[1].value.isidentifier():
+            tgt = ast.Attribute(value=c.args[0], attr=c.args[1].value, ctx=ast.Store())
+            return ast.copy_location(ast.Assign(targets=[tgt], value=c.args[2]), node)
+        return node
+
+
+def _unroll_const_loops(tree: ast.Module) -> None:
+    """Loops and comprehensions over a module-level constant tuple of strings (`_FIELDS = ("a", "b")`) are read as their
+    unrolling, with getattr/setattr on the constant names folded to attribute access: a table-driven writer/reader is read
+    like the statement-per-field version."""
+    import copy
+    consts = {}
+    for st in tree.body:
+        if isinstance(st, ast.Assign) and len(st.targets) == 1 and isinstance(st.targets[0], ast.Name) and isinstance(st.value, (ast.Tuple, ast.List)) \
+                and st.value.elts and all(isinstance(e, ast.Constant) and isinstance(e.value, str) for e in st.value.elts):
+            consts[st.targets[0].id] = [e.value for e in st.value.elts]
+    if not consts:
+        return
+
+    def subst(node, var, value):
+        n = copy.deepcopy(node)
+        n = _SubstNames({var: ast.Constant(value=value)}).visit(n)
+        return _FoldAttrCalls().visit(n)
+
+    class Unroll(ast.NodeTransformer):
+        def _block(self, stmts):
+            out = []
+            for st in stmts:
+                if isinstance(st, ast.For) and isinstance(st.iter, ast.Name) and st.iter.id in consts and isinstance(st.target, ast.Name) \
+                        and not st.orelse and not any(isinstance(x, (ast.Break, ast.Continue)) for x in ast.walk(st)):
+                    for v in consts[st.iter.id]:
+                        for b in st.body:
+                            out.append(subst(b, st.target.id, v))
+                else:
+                    out.append(st)
+            return out
+
+        def generic_visit(self, node):
+            super().generic_visit(node)
+            for fld in ("body", "orelse", "finalbody"):
+                v = getattr(node, fld, None)
+                if isinstance(v, list) and v and isinstance(v[0], ast.stmt):
+                    setattr(node, fld, self._block(v))
+            return node
+
+        def _comp(self, node, make):
+            self.generic_visit(node)
+            g = node.generators
+            if len(g) == 1 and isinstance(g[0].iter, ast.Name) and g[0].iter.id in consts and isinstance(g[0].target, ast.Name) and not g[0].ifs:
+                return ast.copy_location(make([v for v in consts[g[0].iter.id]], g[0].target.id), node)
+            return node
+
+        def visit_ListComp(self, node):
+            return self._comp(node, lambda vals, var: ast.List(elts=[subst(node.elt, var, v) for v in vals], ctx=ast.Load()))
+
+        def visit_GeneratorExp(self, node):
+            return self._comp(node, lambda vals, var: ast.List(elts=[subst(node.elt, var, v) for v in vals], ctx=ast.Load()))
+
+        def visit_DictComp(self, node):
+            return self._comp(node, lambda vals, var: ast.Dict(keys=[subst(node.key, var, v) for v in vals], values=[subst(node.value, var, v) for v in vals]))
+
+        def visit_Call(self, node):
+            self.generic_visit(node)
+            # all([a, b, c]) / any([...]) over an unrolled table -> a and b and c
+            if isinstance(node.func, ast.Name) and node.func.id in ("all", "any") and len(node.args) == 1 and isinstance(node.args[0], ast.List) \
+                    and getattr(node.args[0], "_unrolled", False):
+                return ast.copy_location(ast.BoolOp(op=ast.And() if node.func.id == "all" else ast.Or(), values=node.args[0].elts), node)
+            return node
+
+    u = Unroll()
+    # mark unrolled generator lists so that all()/any() can be folded
+    orig_comp = u._comp
+
+    def comp_mark(node, make):
+        r = orig_comp(node, make)
+        if r is not node and isinstance(r, ast.List):
+            r._unrolled = True
+        return r
+    u._comp = comp_mark
+    u.visit(tree)
+
+
+def _inline_trivial_helpers(tree: ast.Module) -> None:
+    """Private helpers whose body is one `return <expr>` (module functions, and methods called on self / cls) are read as if
+    written at their call sites: `return self._joined_with(first, "union", name).union(*rest)` is read like the expression
+    it abbreviates."""
+    import copy
+
+    def trivial(fn):
+        if not isinstance(fn, ast.FunctionDef) or not fn.name.startswith("_") or fn.name.startswith("__"):
+            return None
+        if any(not (isinstance(d, ast.Name) and d.id in ("staticmethod", "classmethod")) for d in fn.decorator_list):
+            return None
+        a = fn.args
+        if a.vararg or a.kwarg or a.posonlyargs:
+            return None
+        body = [s_ for s_ in fn.body if not (isinstance(s_, ast.Expr) and isinstance(s_.value, ast.Constant))]
+        if len(body) != 1 or not isinstance(body[0], ast.Return) or body[0].value is None:
+            return None
+        if any(isinstance(x, ast.Call) and isinstance(x.func, (ast.Name, ast.Attribute)) and (getattr(x.func, "id", None) == fn.name or getattr(x.func, "attr", None) == fn.name)
+               for x in ast.walk(body[0].value)):
+            return None          # recursive
+        if any(isinstance(x, (ast.Lambda, ast.Yield, ast.YieldFrom, ast.Await, ast.NamedExpr)) for x in ast.walk(body[0].value)):
+            return None
+        return body[0].value
+
+    def bind(fn, call, skip_first):
+        a = fn.args
+        params = [p_.arg for p_ in a.args][(1 if skip_first else 0):]
+        defaults = dict(zip([p_.arg for p_ in a.args][len(a.args) - len(a.defaults):], a.defaults))
+        for p_, d in zip(a.kwonlyargs, a.kw_defaults):
+            if d is not None:
+                defaults[p_.arg] = d
+        allp = params + [p_.arg for p_ in a.kwonlyargs]
+        m = {}
+        if any(isinstance(x, ast.Starred) for x in call.args) or any(k.arg is None for k in call.keywords) or len(call.args) > len(params):
+            return None
+        for p_, v in zip(params, call.args):
+            m[p_] = v
+        for k in call.keywords:
+            if k.arg not in allp or k.arg in m:
+                return None
+            m[k.arg] = k.value
+        for p_ in allp:
+            if p_ not in m:
+                if p_ not in defaults:
+                    return None
+                m[p_] = defaults[p_]
+        return m
+
+    mod_helpers = {f.name: f for f in tree.body if trivial(f) is not None}
+    classes = [c for c in ast.walk(tree) if isinstance(c, ast.ClassDef)]
+    cls_helpers = {id(c): {f.name: f for f in c.body if trivial(f) is not None} for c in classes}
+
+    class Inline(ast.NodeTransformer):
+        def __init__(self, methods):
+            self.methods = methods
+
+        def visit_Call(self, node):
+            self.generic_visit(node)
+            f = node.func
+            target = None
+            skip = False
+            if isinstance(f, ast.Name) and f.id in mod_helpers:
+                target = mod_helpers[f.id]
+            elif isinstance(f, ast.Attribute) and isinstance(f.value, ast.Name) and f.value.id in ("self", "cls") and f.attr in self.methods:
+                target = self.methods[f.attr]
+                static = any(isinstance(d, ast.Name) and d.id == "staticmethod" for d in target.decorator_list)
+                skip = not static
+                if skip and (not target.args.args or target.args.args[0].arg not in ("self", "cls") or target.args.args[0].arg != f.value.id):
+                    return node
+            if target is None:
+                return node
+            m = bind(target, node, skip)
+            if m is None:
+                return node
+            expr = copy.deepcopy(trivial(target))
+            expr = _SubstNames(m).visit(expr)
+            return ast.copy_location(expr, node)
+
+    for _ in range(2):      # helpers may use helpers
+        for c in classes:
+            for fn in c.body:
+                if isinstance(fn, ast.FunctionDef) and trivial(fn) is None or isinstance(fn, ast.FunctionDef):
+                    if fn.name in cls_helpers[id(c)] and trivial(fn) is not None:
+                        continue
+                    Inline(cls_helpers[id(c)]).visit(fn)
+        for fn in tree.body:
+            if isinstance(fn, ast.FunctionDef) and fn.name not in mod_helpers:
+                Inline({}).visit(fn)
+
+
+def canon_compare(tree: ast.AST, modname: str = "") -> ast.AST:
     tree = _CanonCompare().visit(tree)
     _inline_return_temps(tree)
+    if isinstance(tree, ast.Module):
+        _unroll_const_loops(tree)
+        _inline_return_temps(tree)
+        _inline_trivial_helpers(tree)
+        from .inline import expand_module
+        if expand_module(tree, modname):
+            ast.fix_missing_locations(tree)
+            _inline_return_temps(tree)
     return ast.fix_missing_locations(tree)
 
 
@@ -143,7 +358,7 @@ class ModuleInfo:
         self.name = name
         self.path = path
         self.source = source
-        self.tree = canon_compare(ast.parse(source, filename=str(path)))
+        self.tree = canon_compare(ast.parse(source, filename=str(path)), name)
         self.functions: Dict[str, FuncInfo] = {}
         self.classes: Dict[str, ClassInfo] = {}
         self.imports: Dict[str, str] = {}     # local name -> dotted target
@@ -204,6 +419,8 @@ class Repo:
                 if isinstance(node, (ast.Import, ast.ImportFrom)):
                     handle_import(node)
                 elif isinstance(node, (ast.FunctionDef, ast.AsyncFunctionDef)):
+                    if getattr(node, "_inlined_away", False):
+                        continue          # an extracted helper that is read at its call sites (pvs/inline.py)
                     qual = f"{prefix}{node.name}"
                     fi = FuncInfo(m, qual, node, cls=cls, parent=parent)
                     m.functions[qual] = fi
@@ -225,6 +442,8 @@ class Repo:
         def walk_nested(body, prefix, cls, parent):
             for node in body:
                 if isinstance(node, (ast.FunctionDef, ast.AsyncFunctionDef)):
+                    if getattr(node, "_inlined_away", False):
+                        continue
                     qual = f"{prefix}{node.name}"
                     fi = FuncInfo(m, qual, node, cls=cls, parent=parent)
                     m.functions[qual] = fi
